@@ -31,7 +31,8 @@ ASSUMPTIONS = ["coincidence = closer than the loop's clock resolution (1e-9 s); 
 FLOORS = {"quick": {"histories": 6000, "callbacks_matched": 40000, "expiries_on_time": 8000, "refresh_at_d_before": 800,
                     "refresh_at_d_after": 800, "refresh_d_minus_eps": 800, "refresh_d_plus_eps": 400, "infinite_entries_outlived_clock": 300,
                     "ttl_fffffe_expiries": 100, "driver_direct": 2000, "driver_offers": 2000, "driver_subscribes": 1500,
-                    "removed_then_no_expiry": 3000, "rejected_new_entries": 1500}}
+                    "removed_then_no_expiry": 3000, "rejected_new_entries": 1500,
+                    "wakeups_within_resolution_before_a_deadline": 1500}}
 
 FOREVER = 0xFFFFFF
 TTLS = (1, 1, 2, 2, 3, 3, 0xFFFFFE, FOREVER)
@@ -71,10 +72,14 @@ def gen_history(rng, driver):
         r = rng.random()
         if pending and r < 0.55:
             d = rng.choice(pending[:3])
-            placement = rng.choice(("d-eps", "d:before", "d:after", "d+eps"))
-            t = {"d-eps": d - EPS, "d:before": d, "d:after": d, "d+eps": d + EPS}[placement]
+            placement = rng.choice(("d-eps", "d:before", "d:after", "d+eps", "d-res"))
+            # d-res: the loop is woken less than one clock resolution ahead of the deadline; asyncio then runs the
+            # timer in that iteration already (when < time() + resolution), i.e. while loop.time() < handle.when()
+            t = {"d-eps": d - EPS, "d:before": d, "d:after": d, "d+eps": d + EPS, "d-res": d - RES / 2}[placement]
             rank = AFTER if placement == "d:after" else BEFORE
-            if t < now or (t == now and ops and ops[-1][1] == AFTER and rank == BEFORE):
+            if t < now or (t == now and ops and ops[-1][1] == AFTER and rank == BEFORE) or 0 < t - now < 4 * RES:
+                # (an operation less than a resolution after another one would be run together with it, i.e. earlier than
+                # the model is told - the loop runs every timer with when < time() + resolution)
                 placement = "far"
         if placement == "far":
             t = now + rng.choice((1, 2, 4, 8, 12, 20, 24, 36)) / 8.0
@@ -86,7 +91,7 @@ def gen_history(rng, driver):
         # choose the operation
         live = [s for s in slots if state[s] is not None]
         coincident = [s for s in live if state[s] != math.inf and abs(state[s] - t) <= RES]
-        if placement in ("d:before", "d:after") and coincident and rng.random() < 0.85:
+        if placement in ("d:before", "d:after", "d-res") and coincident and rng.random() < (0.85 if placement != "d-res" else 0.4):
             s = rng.choice(coincident)
             op = rng.choice(("refresh", "refresh", "refresh", "stop", "stop_all"))
         elif live and rng.random() < 0.6:
@@ -397,10 +402,12 @@ def judge(ctx, driver, ops, expected, horizon, has_inf, seed, replay):
                 ctx.count("rejected_new_entries")
             elif op == "refresh":
                 k = {"d-eps": "refresh_d_minus_eps", "d:before": "refresh_at_d_before", "d:after": "refresh_at_d_after",
-                     "d+eps": "refresh_d_plus_eps", "far": "refresh_far"}[pl]
+                     "d+eps": "refresh_d_plus_eps", "far": "refresh_far", "d-res": "refresh_within_resolution_before_d"}[pl]
                 ctx.count(k)
             else:
                 ctx.count("removed_then_no_expiry")
+            if pl == "d-res":
+                ctx.count("wakeups_within_resolution_before_a_deadline")
         if has_inf and end > FOREVER:
             ctx.count("infinite_entries_outlived_clock")
     return ok
